@@ -249,4 +249,27 @@ PROPS = {
             {"pkg": S, "test": "TestVerifC02", "quick": (16, 150), "thorough": (16, 8000), "timeout_q": 1500},
         ],
     },
+    "C06": {
+        "level": "exploration",
+        "claim": ("A scripted peer (eBGP / iBGP / confederation member, revised error handling on or off) sends 2-9 UPDATEs, each "
+                  "assembled octet by octet by the check's own serialiser from a valid base message (IPv4 NLRI / withdrawn, "
+                  "MP_REACH/MP_UNREACH IPv6, 16 attribute types) and 0-2 faults of a 14-entry catalogue (flags, length, value, "
+                  "AS_PATH segment, duplicate, missing mandatory, attribute overrun, stray octets in the attribute area, total / "
+                  "withdrawn length, NLRI field, unrecognised well-known, MP next-hop length, MP prefix length) at generated "
+                  "positions. After every message the reference reaction (RFC 7606 s.3-7, RFC 4271 s.6.3: strongest fault wins; "
+                  "everything resets without revised handling) is compared with the NOTIFICATION octets, the session state, and a "
+                  "map model of the peer's routes against Adj-RIB-In, Loc-RIB (attributes = the well-formed first occurrences) "
+                  "and what an observer peer holds."),
+        "note": ("A confederation member's AS_PATH without leading AS_CONFED_SEQUENCE is taken to call for a session reset "
+                 "because the repository's Test_Validate_aspath pins it. NOTIFICATION subcodes are checked against a small "
+                 "allowed set per fault where RFC 4271 leaves a choice (e.g. 5 or 9 for optional attributes). 2-octet-AS sessions, "
+                 "AS4_PATH/AS4_AGGREGATOR and faults in families other than IPv4/IPv6 unicast are not generated."),
+        "technique": "model-based property testing (rapid): fault-injected UPDATE sequences in virtual time against an RFC 7606 reference reaction and a route map model",
+        "rule": ("non-trivial when a message carries two faults or a faulted message arrives after routes were installed; "
+                 "distinct by case hash"),
+        "assumptions": [],
+        "units": [
+            {"pkg": S, "test": "TestVerifC06", "quick": (16, 120), "thorough": (16, 12000), "timeout_q": 1500},
+        ],
+    },
 }
